@@ -264,9 +264,9 @@ def rule_limit(program, ctx):
                 ctx.ok(rid, r, "limit refusal: no registry mutation precedes it (except the same-id replacement)")
 
 
-def rule_replace(program, ctx):
-    rid = ctx.rule(
-        "C13.replace",
+def rule_replace(program, ctx, prop=P, rid="C13.replace"):
+    ctx.rule(
+        rid,
         "BaseStorage.subscribe: every path that answers the REQ (normal exit) has either seen `sub_id in subs` false or called "
         "self.unsubscribe(client_id, sub_id) - the old subscription with the same id never survives an answered REQ",
         floor=1,
@@ -291,12 +291,12 @@ def rule_replace(program, ctx):
                 if call_name(c) == "self.unsubscribe" and len(c.args) >= 2 and isinstance(c.args[1], ast.Name) and c.args[1].id == "sub_id":
                     passes[n] = set(NORMAL)
     if not passes:
-        ctx.bad(finding_func(P, rid, fn, "subscribe never removes an existing subscription with the same id", text="def subscribe(...)"))
+        ctx.bad(finding_func(prop, rid, fn, "subscribe never removes an existing subscription with the same id", text="def subscribe(...)"))
         return
     path = must_pass(cfg, passes, [cfg.exit])
     if path:
         last = next((cfg.ast_of(n) for n in reversed(path) if cfg.ast_of(n) is not None), fn)
-        ctx.bad(finding_at(P, rid, last, "an answered REQ can leave the old subscription with the same id registered (it keeps receiving events)",
+        ctx.bad(finding_at(prop, rid, last, "an answered REQ can leave the old subscription with the same id registered (it keeps receiving events)",
                            path=cfg.describe_path(path)[-6:]))
     else:
         ctx.ok(rid, fn, "same-id replacement precedes every answer to the REQ")
@@ -522,4 +522,14 @@ EQUIVS = [
     E("c13-eq-sender-is-none-first", WEB,
       "            if event is not None:\n                message = event_as_json(sub_id, event)\n            else:\n                # done with stored events\n                message = json_dumps([\"EOSE\", sub_id])",
       "            if event is None:\n                message = json_dumps([\"EOSE\", sub_id])\n            else:\n                message = event_as_json(sub_id, event)"),
+]
+
+# functions whose syntactic mutants are used for the thorough tier's sensitivity figure (sa/automut.py)
+ANCHORS = [
+    "nostr_relay.storage.base:BaseStorage.subscribe",
+    "nostr_relay.storage.base:BaseStorage.unsubscribe",
+    "nostr_relay.storage.db:Subscription.run_query",
+    "nostr_relay.storage.kv:Subscription.run_query",
+    "nostr_relay.web:send_subscriptions",
+    "nostr_relay.web:start_client",
 ]
